@@ -67,6 +67,19 @@ def _tables_of(rd):
     return [t.lower() for (_, t, _) in (st.tables or [])] or [(rd.table or '').lower()]
 
 
+def _stray_result_reads(ip, ret, accepted):
+    """Reads whose output reaches the value the query returns although they are not among the accepted reads
+    (the reads of the relation that carries the query's meaning)."""
+    retlocs = {(l[1], l[2]) for l in vf.leaves(ret) if l and l[0] == 'loc'} if ret is not None else set()
+    out = []
+    for rd in ip.reads:
+        if any(rd is a for a in accepted):
+            continue
+        if any(o and o[0] == 'loc' and (o[1], o[2]) in retlocs for o in rd.outs):
+            out.append(rd)
+    return out
+
+
 def run(tier='quick'):
     prog = program.load()
     cg = callgraph.get(prog)
@@ -110,7 +123,15 @@ def run(tier='quick'):
                 ok = [h for h in ok if res in [c.lower() for c in h[0].columns] or
                       res in [x for e, a in (h[0].stmt.select.items if h[0].stmt.select else [])
                               for x in [y[1].lower() for y in e.columns_used()]]]
-            if ok:
+            stray = _stray_result_reads(ip, ret, [h[0] for h in ok]) if ok else []
+            if ok and stray:
+                rd = stray[0]
+                chk.violation(T1, '%s|result also taken from %s' % (_short(qn), rd.table), rd.loc,
+                              '%s: the crates returned are also taken from a read of %s(%s) at %s that is not the read of '
+                              'the relation carrying the meaning of the query (%s keyed on %s): two relations answer one '
+                              'question, and they differ as soon as one of them is stale' % (
+                                  inst, rd.table, ','.join(rd.columns), rd.loc, role['table'], role['key']))
+            elif ok:
                 chk.ok(T1, inst, ok[0][0].loc, detail=role['why'])
                 derived[qn] = (role['table'].lower(), role['key'].lower(), (role.get('result') or '').lower())
             else:
@@ -133,9 +154,12 @@ def run(tier='quick'):
         for f, ip, ret in evaluate(prog, cg, eff, qn):
             chk.analysed(f)
             ok = False
+            good = []
             for rd in ip.reads:
                 if role['table'].lower() not in _tables_of(rd):
                     continue
+                was = ok
+                ok = False
                 wtext = rd.stmt.text().lower()
                 if 'self_parent' in role:
                     a, b = [x.lower() for x in role['self_parent']]
@@ -150,8 +174,18 @@ def run(tier='quick'):
                     for c, v in rd.where.items():
                         if c.lower() == col.lower() and vf._constval(v) == cval:
                             ok = True
+                if ok:
+                    good.append(rd)
+                ok = ok or was
             inst = '%s uses the root convention of %s' % (_short(qn), role['table'])
-            if ok:
+            stray = _stray_result_reads(ip, ret, good) if ok else []
+            if ok and stray:
+                rd = stray[0]
+                chk.violation(T1, '%s|result also taken from %s' % (_short(qn), rd.table), rd.loc,
+                              '%s: the crates returned are also taken from a read of %s(%s) at %s that does not carry the '
+                              'root convention (%s): a crate that is no root by the parent relation can be returned as one' % (
+                                  inst, rd.table, ','.join(rd.columns), rd.loc, role.get('self_parent') or role.get('const')))
+            elif ok:
                 chk.ok(T1, inst, locstr(f.node))
             else:
                 chk.violation(T1, '%s|root convention' % _short(qn), locstr(f.node),
@@ -229,6 +263,11 @@ def run(tier='quick'):
     T10 = chk.rule('T10', 'remove_crate removes the whole subtree of the crate, so that no live crate keeps a removed '
                           'parent', floor=2)
     subtree_removed(prog, cg, eff, chk, T10)
+    T19 = chk.rule('T19', 'every structural query answers from the database: handle, implementation, table and context classes '
+                          'hold no remembered ids or rows (a set of known ids is not told about rows a trigger deletes, so a '
+                          'removed crate stays valid) - rule N1 of C10', floor=10)
+    from . import c10 as _c10s
+    _c10s.handles_stateless(prog, chk, T19)
     T9 = chk.rule('T9', 'the tables that carry the crate forest are created as the reference dump of the version '
                         'defines them - in particular the id column of the 2.x Playlist table is AUTOINCREMENT, so '
                         'the id of a removed crate is never handed out again', floor=20)
